@@ -846,3 +846,8 @@ MUTATIONS += [
     # marked packs are deleted one keep-delete period too early (comparison against now + keep_delete)
     dict(id="C02-keep-delete-added-instead-of-subtracted", prop="C02", file=PR13, old="                                    if self.time.saturating_sub(keep_delete).timestamp()", new="                                    if self.time.saturating_add(keep_delete).timestamp()"),
 ]
+
+MUTATIONS += [
+    # copy does not walk the snapshots' trees at all when looking for the blobs to copy (only the root trees are copied)
+    dict(id="C12-copy-walks-no-tree", prop="C12", file="crates/core/src/commands/copy.rs", old="    let mut tree_streamer = TreeStreamerOnce::new(be, index, snap_trees, p)?;", new="    let mut tree_streamer = TreeStreamerOnce::new(be, index, Vec::new(), p)?;"),
+]
